@@ -942,11 +942,15 @@ impl<
 
         let start = Instant::now();
 
+        // Sharding must be set up from the actual number of keys *before*
+        // the store is split into shards: the expected number of keys (or the
+        // lack thereof) might suggest a different number of shards.
+        shard_edge.set_up_shards(self.num_keys, self.eps);
+
         let shard_store = sig_store.into_shard_store(shard_edge.shard_high_bits())?;
         let max_shard = shard_store.shard_sizes().iter().copied().max().unwrap_or(0);
         let filter = TypeId::of::<V>() == TypeId::of::<EmptyVal>();
 
-        shard_edge.set_up_shards(self.num_keys, self.eps);
         (self.c, self.lge) = shard_edge.set_up_graphs(self.num_keys, max_shard);
 
         if filter {
